@@ -3,7 +3,6 @@ package redisemu
 import (
 	"fmt"
 	"math"
-	"strconv"
 	"strings"
 	"time"
 )
@@ -312,13 +311,14 @@ func fnIncrByFloat(ctx *cmdContext, args map[string]any) (output respValue, err 
 		return
 	}
 
-	result, valid := ctx.dsc.addFloat(key, delta)
+	deltaText, _ := ctx.rawArgs[2].toString()
+	text, _, valid := ctx.dsc.addFloat(key, delta, deltaText)
 	if valid == VALUE_WRONG_TYPE {
 		output.data = wrongTypeError
 	} else if valid == VALUE_WRONG_FORMAT {
 		output.data = respErrorString("ERR value is not a valid float")
 	} else {
-		output.data = respBulkString(strconv.FormatFloat(result, 'f', -1, 64))
+		output.data = respBulkString(text)
 	}
 	return
 }
